@@ -13,5 +13,5 @@ CONSTANTS
   ReleaseNoClear = FALSE
   MoveAssignInPlaceBug = FALSE
 VIEW IView
-INVARIANTS ParentConsistent RootsHaveNoParent NoDangling NoLeak Refines ReturnsAgree ITypeOK TypeOK
+INVARIANTS ReturnsAgree
 CHECK_DEADLOCK FALSE
